@@ -247,5 +247,46 @@ def gen_C16(tier, seed):
     return {"reqs": reqs, "certs": certs, "first": False, "gen": g, "contract": True}
 
 
-GENS = {"C01": gen_C01, "C02": gen_C02, "C03": gen_C03, "C04": gen_C04, "C09": gen_C09,
+TOP_APIS = ["is_match", "find", "find_overlapping", "find_iter", "find_overlapping_iter", "replace_all",
+            "replace_all_bytes", "replace_all_with", "replace_all_with_bytes", "stream_find_iter",
+            "try_find", "try_find_overlapping", "try_find_iter", "try_find_overlapping_iter", "try_replace_all",
+            "try_replace_all_bytes", "try_replace_all_with", "try_replace_all_with_bytes", "try_stream_find_iter",
+            "try_stream_replace_all", "try_stream_replace_all_with"]
+LOW_APIS = ["try_find", "try_find_overlapping", "try_find_iter", "try_find_overlapping_iter",
+            "try_replace_all_bytes", "try_replace_all", "try_stream_find_iter", "try_stream_replace_all"]
+
+
+def gen_C13(tier, seed):
+    """exhaustive: every entry point x match kind x start kind x anchoring x automaton kind x
+    {empty pattern present, absent} x pattern lists x haystacks"""
+    g = Gen(seed)
+    q = tier == "quick"
+    lists = [([b"ab", b"b"], [b"", b"ab"]), ([b"x"], [b"x", b""])] + ([] if q else [([b"abc", b"bc", b"c"], [b"", b"", b"a"])])
+    hays = [b"xabx", b""] + ([] if q else [b"ab"])
+    reqs = []
+    for api in TOP_APIS:
+        for mk in ("std", "lf", "ll"):
+            for anch in (0, 1):
+                for noempty, withempty in lists:
+                    for pats in (noempty, withempty):
+                        for hay in hays:
+                            top = ["%s.d.1.0.%s" % (k, sk) for k in ("tnc", "tc", "tdfa", "auto") for sk in "uab"]
+                            kv = {"api": api, "mk": mk, "pats": hxlist(pats), "hay": hx(hay), "cfgs": cfgs(top)}
+                            if anch:
+                                kv["anch"] = 1
+                            reqs.append(fmt_req("gate", kv))
+    for api in LOW_APIS:
+        for mk in ("std", "lf", "ll"):
+            for anch in (0, 1):
+                for noempty, withempty in lists:
+                    for pats in (noempty, withempty):
+                        low = ["nc.d.1.0.b", "c.d.1.0.b", "dfa.d.1.0.u", "dfa.d.1.0.a", "dfa.d.1.0.b"]
+                        kv = {"api": api, "mk": mk, "pats": hxlist(pats), "hay": hx(b"xabx"), "cfgs": cfgs(low)}
+                        if anch:
+                            kv["anch"] = 1
+                        reqs.append(fmt_req("gate", kv))
+    return {"reqs": reqs, "certs": [], "gen": g, "exhaustive": True}
+
+
+GENS = {"C13": gen_C13, "C01": gen_C01, "C02": gen_C02, "C03": gen_C03, "C04": gen_C04, "C09": gen_C09,
         "C11": gen_C11, "C14": gen_C14, "C16": gen_C16}
